@@ -89,13 +89,20 @@ theorem C05_internal_steps_bounded (c1 c2 : Nat) (rs : Bool) (s s' : St) (a : Ac
     simp_all [measure, pendFrames] <;> (try omega)
 
 /-- **After the handler has finished, sends return nil or io.EOF** (with a live context; a send
-    after CloseSend is the caller's own error). -/
+    after CloseSend, or of a message the cloner refuses, is the caller's own error). -/
 theorem C05_send_results_after_finish (s s' : St) (a : Act) (evs : List Ev) (res : Res)
     (hctx : s.ctx = none) (hs : step s a = some (s', evs)) (hev : Ev.ret .cs res ∈ evs) :
-    res = .ok ∨ res = .eof ∨ (res = .plainErr ∧ s.sendClosed = true) := by
+    res = .ok ∨ res = .eof ∨ (res = .plainErr ∧ (s.sendClosed = true ∨ a = .cSendRefused)) := by
   cases a <;> simp only [step, finishWrite] at hs <;> (repeat' split at hs) <;>
     (try (simp only [Option.some.injEq, Prod.mk.injEq, reduceCtorEq] at hs)) <;>
     (try (obtain ⟨rfl, rfl⟩ := hs)) <;> (try (exfalso; assumption)) <;> simp_all [svrCtxErr]
+
+/-- **A refused send holds nothing**: a SendMsg whose message the cloner refuses returns its error and
+    leaves the stream exactly as it was — in particular the send side is free for the next SendMsg or
+    CloseSend (the defect a seeded change introduced by not releasing the mutex on that path). -/
+theorem C05_refused_send_changes_nothing (s : St) (hc : s.cSend = none) :
+    step s .cSendRefused = some (s, [.ret .cs .plainErr]) := by
+  simp [step, hc]
 
 /-- **The final status is idempotent**: once the client has been handed the call's error, every
     later RecvMsg returns it again and changes nothing. -/
